@@ -64,7 +64,7 @@ AsciiBuiltins ==
     ASCII               |-> << <<0, 127>> >> ]
 
 StackBuiltins == {"PEEK", "PEEK_ALL", "POP", "POP_ALL", "DROP"}
-Keywords == {"ANY", "SOI", "EOI", "NEWLINE"} \cup StackBuiltins
+Keywords == {"ANY", "SOI", "EOI"} \cup StackBuiltins    \* names a grammar cannot define
 
 \* ------------------------------------------------------------------ states and results
 St(r) == [pos |-> r.pos, stk |-> r.stk, q |-> r.q]
